@@ -12,6 +12,7 @@ import Scico.Proofs.FlaxIter
 import Scico.Proofs.FlaxCkpt
 import Scico.Proofs.FlaxTrain
 import Scico.Proofs.FlaxDir
+import Scico.Proofs.FlaxLoop
 
 namespace Scico.Props.C20
 open Scico.Flax
@@ -400,6 +401,38 @@ theorem C20_train_errors (k : Nat) (c : TrainCfg) (d : Dir Nat) :
   have hcond : ¬ (offset < c.numSteps ∧ (c.logEvery = 0 ∨ c.spc = 0)) := by omega
   simp only [sessionLoop, hcond, if_false, Nat.sub_eq_zero_of_le h]
   rfl
+
+def exCfg0 (ep : Nat) : TrainCfg :=
+  { lenTrain := 6, lenTest := 6, batchSize := 2, numEpochs := ep, spcOpt := some 2, logOpt := some 4, evalOpt := none,
+    checkpointing := true, hasVars0 := false, logflag := true }
+
+/-- The loop of `train()` run one iteration at a time (`loopStep`: append to `train_metrics`, test the log period, hand the list
+    to `update_metrics` and empty it, test the checkpoint condition) against the closed form, for every configuration with
+    periods ≥ 1 and every start offset: the recorded events are exactly those of `sessionLoop`; `update_metrics` is called at
+    exactly the steps `s` with `L ∣ s+1`, and the list it receives at step `s` has `min(L, s+1−offset)` entries — a full window
+    of `L` steps except for the first call of a resumed run, never empty; what is left in `train_metrics` at the end. -/
+theorem C20_train_loop (c : TrainCfg) (hL : 1 ≤ c.logEvery) (hS : 1 ≤ c.spc) (offset : Nat) :
+    let st := loopRun c offset
+    let steps := List.range' offset (c.numSteps - offset)
+    sessionLoop c offset = .ok st.evs ∧
+    st.windows.map (·.1) = steps.filter (fun s => (s + 1) % c.logEvery == 0) ∧
+    (∀ w ∈ st.windows, w.2 = min c.logEvery (w.1 + 1 - offset) ∧ 1 ≤ w.2) ∧
+    st.metrics = min (c.numSteps - offset) ((offset + (c.numSteps - offset)) % c.logEvery) := by
+  intro st steps
+  have hspec : st = _ := loopRunN_spec c hL offset (c.numSteps - offset)
+  have hcond : ¬ (offset < c.numSteps ∧ (c.logEvery = 0 ∨ c.spc = 0)) := by omega
+  refine ⟨?_, ?_, ?_, ?_⟩
+  · simp only [sessionLoop, hcond, if_false, hspec]; rfl
+  · rw [hspec]; simp [List.map_map, Function.comp_def, steps]
+  · intro w hw
+    rw [hspec] at hw
+    simp only [List.mem_map, List.mem_filter, List.mem_range'_1] at hw
+    obtain ⟨s, ⟨hs, _⟩, rfl⟩ := hw
+    exact ⟨rfl, by simp only; omega⟩
+  · rw [hspec]
+
+-- non-vacuity: resumed at step 3 of 9, log every 4: update_metrics at steps 3 and 7 with 1 and 4 entries; 1 entry left over
+example : (loopRun (exCfg0 3) 3).windows = [(3, 1), (7, 4)] ∧ (loopRun (exCfg0 3) 3).metrics = 1 := by decide
 
 /-- Data order of a resumed run: step `s+i` of a run that resumes at step `s` is trained on the rows the run's own
     iterator state machine (§3, started from the run's key) produces as its `i`-th batch, i.e. `specBatch … i` — the
